@@ -24,6 +24,8 @@ def showColl : CollRes → String
   | .nonLovelace => "err NonLovelaceCollateral"
   | .minLovelace => "err CollateralMinLovelace"
   | .annotation => "err CollateralAnnotation"
+  | .missing => "err CollateralMissing"
+  | .tooMany => "err TooManyCollaterals"
   | .panic => "panic"
 
 def runLd : List String → String
